@@ -281,3 +281,4 @@ def run(ctx):
             ctx.violation("R3", "field-writer:" + owner, "LruCache's map/order/capacity is written outside its impl", where)
     else:
         ctx.ok("R3", "field-writers", "%d mutable field accesses, all inside impl LruCache" % n)
+WITNESS = True
